@@ -471,7 +471,7 @@ class PathCtx:
         ok = True
         for k, direction in self.directions(wrt):
             lhs = self.D(direction, Tout)
-            rhs = np.dot(Tout, sp.hat(list(J[:, k])))
+            rhs = np.dot(Tout, sp.hat_h(list(J[:, k])))
             ok &= self.eq("%s/d%s%d" % (name, wrt, k), lhs, rhs, kind)
         return ok
 
@@ -517,7 +517,7 @@ class PathCtx:
         for k, direction in self.directions(wrt):
             d = [R.zero] * sp.dof
             d[k] = R.one
-            ok &= self.eq("%s/lift%d" % (name, k), self.D(direction, Tc), np.dot(Tc, sp.hat(d)), "DERIV")
+            ok &= self.eq("%s/lift%d" % (name, k), self.D(direction, Tc), np.dot(Tc, sp.hat_h(d)), "DERIV")
         return ok
 
     def must_not_throw(self, name="no_throw", kind="SAFE"):
